@@ -118,7 +118,9 @@ def equal(d1, d2):
         # literally as C04 states it: 'a descriptor with unspecified parity equals every descriptor over the
         # same atoms' - the class is not compared (the library does not compare it either; demanding it would
         # ask more than the property says)
-        return sorted(map(repr, t1)) == sorted(map(repr, t2))
+        # 'the same atoms' is read as the same SET (a repeated lone-pair placeholder counts once): the statement does not
+        # say more, and the library compares sets
+        return set(t1) == set(t2)
     if c1 != c2:
         return False
     return same(d1, d2)
